@@ -380,7 +380,7 @@ def c07(pid, tier, replay):
         "replay_cmd": lambda path: ["ser-run", "--replay", path],
         "result_keys": ("o", "n", "op"), "nontrivial": lambda e: True,
         "rule": "TLC enumerates the document-shape lattice of Totality.tla (metadata x node list x roots x nodes x edges x "
-                "document types x nil elements: 90 720 shapes) and exports it; the harness builds a real Document per shape and "
+                "document types x nil elements; the size is reported as shape_lattice_size) and exports it; the harness builds a real Document per shape and "
                 "writes it with all eight registered serializers (SPDX 2.3, CycloneDX 1.0-1.5, SPDX 3 beta) in child processes "
                 "with a write-ahead journal, each document at two different history positions (block order, then reversed); "
                 "quick runs a seeded sample of the lattice, thorough all of it; plus the enum sweep (every declared number of "
